@@ -2,7 +2,7 @@
 import itertools
 import json
 
-from extract import break_table
+from extract import break_computed, break_table
 from harness import docs, pm, pm_corr
 from vlib import sx
 from vlib.framework import PropCheck
@@ -138,12 +138,14 @@ def doc_violation(values, k):
 
 class C04(PropCheck):
     id = 'C04'
-    extractors = (break_table.generate,)
+    extractors = (break_table.generate, break_computed.generate)
     modules = ('WpModel.Props.C04', 'WpModel.Props.C04Trace', 'WpModel.Witness.C04', 'WpModel.Props.C04Pm2',
-               'WpModel.Witness.C04Pm2')
+               'WpModel.Witness.C04Pm2', 'WpModel.Props.C04Computed')
     trusted_base = (
         'modelled, not verified: block_level_page_break / avoid_page_break / force_page_break as table + fold '
         '(tables regenerated from block.py by AST and by calling the real functions)',
+        'declaration -> computed break value: complete graph regenerated each run by calling the real '
+        'preprocess_declarations and computer functions (Gen/BreakComputed), not a hand model',
     )
     assumptions = (
         'block-parallel box kinds are (BlockLevelBox, TableRowGroupBox, TableRowBox) (css-break-3 possible breaks)',
@@ -579,7 +581,10 @@ MANIFEST = {
                  'each run; exhaustive executable correspondence with the real block_level_page_break',
     'text': 'Unbounded theorems (any sequence length, any box nesting): the strongest break value wins, a forced value '
             'anywhere forces the result, the last side value wins, avoid wins when nothing forces. Stated over tables '
-            'regenerated from the source, so a table edit re-checks every proof. Pagination-level clauses (new page '
+            'regenerated from the source, so a table edit re-checks every proof. The path from the declaration as '
+            'written to the value the layout sees (always -> page, the page-break-* aliases, which spellings force / '
+            'avoid) is a complete graph regenerated each run from the real validators, expanders and computer '
+            'functions (Gen/BreakComputed, theorems C04Computed.*). Pagination-level clauses (new page '
             'actually started, orphans/widows) are carried by the pagination model once registered.',
     'note': 'Trusted: Lean kernel, the AST/graph translators, the harness mapping box classes to block-parallel flags. '
             'avoid_wins is proved with the hypothesis that no `column` value meets outside a multi-column container '
